@@ -1,8 +1,108 @@
-//! Archives written directly in the documented format by the harness (filled in later).
-use serde_json::Value;
+//! Archives written directly in the documented format by the harness's own encoder (no conserve
+//! code involved), for the stitching / listing checks.
+//!
+//! Step: {"op":"layout","bands":[{"id":1,"head":true,"tail":true,"count":2,
+//!                                 "hunks":[{"n":0,"es":[E,...]}, ...]}, ...],
+//!        "blocks":[[bytes...], ...]}
+//! where E is an entry in the harness's abstract form (p, k, mt, mode, u, g, a, t).
 
+use std::fs;
+
+use serde_json::{Value, json};
+
+use crate::decode;
 use crate::drive::Runner;
+use crate::tree;
 
-pub fn do_layout(_r: &mut Runner, _st: &Value) {
-    unimplemented!("layout step")
+/// Abstract entry -> the JSON dict documented in doc/format.md.
+fn entry_doc_json(e: &Value, full_hash: &dyn Fn(&str) -> String) -> Value {
+    let p: Vec<Vec<u8>> = serde_json::from_value(e["p"].clone()).unwrap_or_default();
+    let mut o = serde_json::Map::new();
+    o.insert("apath".into(), json!(tree::apath_string(&p)));
+    o.insert("kind".into(), e["k"].clone());
+    o.insert("mtime".into(), e["mt"][0].clone());
+    if e["mt"][1].as_i64().unwrap_or(0) != 0 {
+        o.insert("mtime_nanos".into(), e["mt"][1].clone());
+    }
+    let mode = e["mode"].as_i64().unwrap_or(-1);
+    o.insert("unix_mode".into(), if mode < 0 { Value::Null } else { json!(mode) });
+    if let Some(u) = e["u"].as_str() {
+        if !u.is_empty() {
+            o.insert("user".into(), json!(u));
+        }
+    }
+    if let Some(g) = e["g"].as_str() {
+        if !g.is_empty() {
+            o.insert("group".into(), json!(g));
+        }
+    }
+    if let Some(a) = e["a"].as_array() {
+        if !a.is_empty() {
+            o.insert(
+                "addrs".into(),
+                Value::Array(
+                    a.iter()
+                        .map(|x| {
+                            let mut m = serde_json::Map::new();
+                            m.insert("hash".into(), json!(full_hash(x["h"].as_str().unwrap_or(""))));
+                            if x["s"].as_i64().unwrap_or(0) != 0 {
+                                m.insert("start".into(), x["s"].clone());
+                            }
+                            m.insert("len".into(), x["n"].clone());
+                            Value::Object(m)
+                        })
+                        .collect(),
+                ),
+            );
+        }
+    }
+    if e["k"] == "Symlink" {
+        let t: Vec<u8> = serde_json::from_value(e["t"].clone()).unwrap_or_default();
+        o.insert("target".into(), json!(String::from_utf8_lossy(&t)));
+    }
+    Value::Object(o)
+}
+
+pub fn do_layout(r: &mut Runner, st: &Value) {
+    let root = r.arch.clone();
+    tree::remove_tree(&root);
+    fs::create_dir_all(root.join("d")).unwrap();
+    fs::write(root.join("CONSERVE"), b"{\"conserve_archive_version\":\"0.6\"}\n").unwrap();
+    // blocks: content -> full hash, addressable by their abbreviated name
+    let mut full: std::collections::HashMap<String, String> = std::collections::HashMap::new();
+    if let Some(blocks) = st.get("blocks").and_then(|x| x.as_array()) {
+        for b in blocks {
+            let content: Vec<u8> = serde_json::from_value(b.clone()).unwrap_or_default();
+            let (hash, comp) = decode::encode_block(&content);
+            let dir = root.join("d").join(&hash[..3]);
+            fs::create_dir_all(&dir).unwrap();
+            fs::write(dir.join(&hash), comp).unwrap();
+            full.insert(decode::short(&hash), hash);
+        }
+    }
+    let lookup = |h: &str| -> String { full.get(h).cloned().unwrap_or_else(|| format!("{:0<128}", h)) };
+    for b in st["bands"].as_array().unwrap() {
+        let id = b["id"].as_u64().unwrap() as u32;
+        let bdir = root.join(decode::band_dirname(id));
+        fs::create_dir_all(bdir.join("i")).unwrap();
+        if b["head"].as_bool().unwrap_or(true) {
+            fs::write(bdir.join("BANDHEAD"), b"{\"start_time\":1600000000,\"band_format_version\":\"0.6.3\"}\n").unwrap();
+        }
+        let mut nh = 0;
+        for h in b["hunks"].as_array().unwrap() {
+            let n = h["n"].as_u64().unwrap() as u32;
+            let es: Vec<Value> = h["es"].as_array().unwrap().iter().map(|e| entry_doc_json(e, &lookup)).collect();
+            let rel = decode::hunk_relpath(n);
+            let full_path = bdir.join(&rel);
+            fs::create_dir_all(full_path.parent().unwrap()).unwrap();
+            fs::write(full_path, decode::encode_hunk(&es)).unwrap();
+            nh += 1;
+        }
+        if b["tail"].as_bool().unwrap_or(false) {
+            let count = b.get("count").and_then(|x| x.as_i64()).unwrap_or(nh);
+            fs::write(bdir.join("BANDTAIL"), format!("{{\"end_time\":1600000100,\"index_hunk_count\":{count}}}\n")).unwrap();
+        }
+    }
+    r.log.emit(json!({"ev": "layout"}));
+    r.emit_fsck();
 }
